@@ -149,7 +149,7 @@ PROPS["C10"] = {
         H("k10_product_kernel_3_5", timeout=1200, mem_gb=16, unwindset=valk_rules()),
         H("k10_product_kernel_9_1", tiers=("thorough",), timeout=1200, mem_gb=16, unwindset=valk_rules()),
         H("k10_product_kernel_0_8", tiers=("thorough",), timeout=1200, mem_gb=16, unwindset=valk_rules()),
-    ] + [H("k10_acc_%s" % a, tiers=(("quick", "thorough") if a in QUICK_ACC else ("thorough",)), timeout=1800, mem_gb=16,
+    ] + [H("k10_acc_%s" % a, tiers=(("quick", "thorough") if a in QUICK_ACC else ("thorough",)), timeout=2400, mem_gb=26,
            unwind=8, unwindset=valk_rules()) for a in ACC] + [
         H("k10_pdec_sum_b_y", tiers=("thorough",), timeout=3600, mem_gb=40, core=False, unwind=8, unwindset=valk_rules()),
         H("k10_pdec_prod_yy", tiers=("thorough",), timeout=3600, mem_gb=40, core=False, unwind=8, unwindset=valk_rules()),
@@ -160,7 +160,7 @@ PROPS["C10"] = {
 PROPS["C11"] = {
     "filters": ["k11_"],
     "functions": ["<Value as PartialEq>::eq", "<Value as Ord>::cmp", "<Value as PartialOrd>::partial_cmp", "<Value as Hash>::hash", "RawByteIter::next", "<Final as PartialEq>::eq"],
-    "bounds": "pairs of values of the same type built from independent 4-byte symbolic buffers at independent bit offsets 0..7; types: 2+2^8, (1+2)x2^4, 2^8, 2^4+2 (clean histories) and 2+2^8, 2 (dirty histories: arbitrary sum padding and arbitrary bits after the value)",
+    "bounds": "pairs of values of the same type built from independent 4-byte symbolic buffers at independent bit offsets 0..7, and pairs cut out of one shared buffer at two offsets (siblings); types: 2+2^8, (1+2)x2^4, 2^8, 2^4+2 (clean histories) and 2+2^8, 2 (dirty histories: arbitrary sum padding and arbitrary bits after the value)",
     "outside": "histories that need the compact decoder or prune; transitivity over triples; other type shapes",
     "assumptions": ["values are built from raw parts through the verif-hooks", "Tmr stubs as in C10"],
     "harnesses": [
@@ -168,6 +168,8 @@ PROPS["C11"] = {
         H("k11_eq_clean_prod_sum", timeout=1800, mem_gb=16, unwind=8, unwindset=valk_rules()),
         H("k11_eq_clean_byte", tiers=("thorough",), timeout=1800, mem_gb=16, unwind=8, unwindset=valk_rules()),
         H("k11_eq_clean_sum_n_b", tiers=("thorough",), timeout=1800, mem_gb=16, unwind=8, unwindset=valk_rules()),
+        H("k11_eq_shared_byte", timeout=1800, mem_gb=16, unwind=8, unwindset=valk_rules()),
+        H("k11_eq_shared_u16", tiers=("thorough",), timeout=1800, mem_gb=16, unwind=8, unwindset=valk_rules()),
         H("k11_eq_dirty_sum_b_y", timeout=1800, mem_gb=16, unwind=8, unwindset=valk_rules()),
         H("k11_eq_dirty_bit", timeout=1800, mem_gb=16, unwind=8, unwindset=valk_rules()),
     ],
